@@ -155,6 +155,26 @@ def timing_stream(ctx, stream, ncases, attempts=3):
     return all_ok
 
 
+def stress(ctx):
+    """Concurrency smoke for the one assumption the sequential queue theorems make about Go (each method is
+    atomic under the queue's mutex): 8 producers x 4 workers on one real PushQueue, no_loss / one-in-flight /
+    isolation / shared-request-untouched evaluated on what the workers were handed."""
+    runs = ctx.n(4, 40)
+    per = ctx.n(3000, 20000)
+    for k in range(runs):
+        rc, out = ctx.harness("stress", int(ctx.seed) * 1000 + k, 8, 4, per)
+        line = (out.strip().split("\n") or [""])[-1]
+        ctx.count("stress.runs")
+        ctx.note_case("stress %d %s" % (k, line), True, {"stream": "stress", "result": line} if k == 0 else None)
+        if rc != 0 or not line.startswith("OK"):
+            clause = line.split()[1] if line.startswith("FAIL") and len(line.split()) > 1 else "crashed"
+            ctx.violation("stress:%s" % clause,
+                          "concurrent producers/workers on the real PushQueue violate clause '%s'" % clause,
+                          {"stream": "stress", "cmd": "harness/bin/c02 stress %d 8 4 %d" % (int(ctx.seed) * 1000 + k, per),
+                           "output": out[-2000:]}, True)
+            return
+
+
 def robust(ctx, fn, *a, **kw):
     """harness/bin is shared with the checks of other properties running concurrently; if our binary
     disappears under us, rebuild it and run the step again (a machinery hiccup, not a verdict)."""
@@ -170,14 +190,24 @@ def robust(ctx, fn, *a, **kw):
 
 
 def run(ctx):
-    ctx.rule = ("merge: cases = 2-4 PushRequest objects over shared/unshared/nil/empty map objects (7 config keys, 4 addresses, "
-                "3 waypoints, 5 reasons incl. zero counts), then 1-5 Merge/CopyMerge/ReasonStats.CopyMerge calls incl. nil "
-                "arguments, self-merge, chains through the previous result and both bracketings of a triple; "
+    ctx.rule = ("merge: 2-4 PushRequest objects over shared/unshared/nil/empty map objects (7 config keys, 4 addresses, 3 waypoints, "
+                "5 reasons incl. zero counts), then 1-5 Merge/CopyMerge/ReasonStats.CopyMerge calls incl. nil arguments, self-merge, "
+                "chains through the previous result, both bracketings of a triple; "
+                "queue: 1-4 connections, 3-80 Enqueue/Dequeue/MarkDone/ShutDown/Pending ops on a real PushQueue (a third of the enqueues "
+                "hand one shared request to every connection), drained at the end; "
+                "debounce: 1-7 sends with sleeps around the quiet period and a held pushFn (40% of cases put sends inside a running push); "
+                "sender: real doSendPushes, semaphore capacity 1-3, 1-3 connections, enq/deliver/pushdone/close/stop/shut in any order; "
+                "stress: 8 producers x 4 workers on one real queue; "
                 "distinct = hash of (ops, implementation outputs); non-trivial = at least one op")
     ctx.assumptions = [
-        "callers do not write to a PushRequest after handing it to ConfigUpdate / Enqueue (the queue itself is proved not to)",
-        "every request handed to PushQueue.Enqueue carries a snapshot (Push != nil): true for Push/AdsPushAll/ProxyUpdate, "
-        "the only callers; without it CopyMerge forgets the older snapshot (copyMerge_push_nil_witness)",
+        "every PushQueue method is one atomic step (holds the queue mutex throughout) - exercised by the concurrent stress run, not proved",
+        "callers do not write to a PushRequest after handing it to ConfigUpdate / Enqueue, and hand a fresh request (fresh maps) to every "
+        "ConfigUpdate call (the queue itself is proved never to write to a request; debounce merges in place into the first request of a batch)",
+        "every request handed to PushQueue.Enqueue carries a snapshot (Push != nil): true for Push/AdsPushAll/ProxyUpdate, the only "
+        "callers; without it CopyMerge forgets the older snapshot (copyMerge_push_nil_witness)",
+        "only doSendPushes calls Dequeue and only its three exit paths (through done()) call MarkDone",
+        "liveness beyond 'an enabled releasing exit always exists' (Go scheduler fairness, timers eventually firing, pushFn / "
+        "pushConnection returning, a closed gRPC stream cancelling its context) is assumed",
     ]
     proved = ctx.lean_prove(THEOREMS)
     if not ctx.build_drv():
@@ -193,6 +223,7 @@ def run(ctx):
     robust(ctx, timing_stream, ctx, "sender", ctx.n(120, 1500))
     for stream in STREAMS:
         robust(ctx, oracle_all, ctx, stream)
+    robust(ctx, stress, ctx)
     if not proved and not ctx.violations:
         pass  # finish() reports the broken proof; the oracle already searched every generated case
 
@@ -225,8 +256,21 @@ def replay(ctx, path):
 
 
 MANIFEST = {
-    "level_text": ("Lean 4 proof over an exact heap model (object identities, aliasing) of PushRequest.Merge/CopyMerge."),
-    "level_note": ("Trusted: Lean kernel + {propext, Classical.choice, Quot.sound}; the hand-written model (tied by differential testing)."),
-    "technique": "Lean 4 theorems over an exact model + differential correspondence with the real Go functions",
+    "level_text": ("Lean 4 proof over exact executable models of PushRequest.Merge/CopyMerge (heap with object identities and aliasing), "
+                   "PushQueue (Enqueue/Dequeue/MarkDone/ShutDown), the debounce loop (transition system with explicit clock) and "
+                   "doSendPushes with its done() exits. Proved for all inputs / operation sequences / event schedules: merged keys = union, "
+                   "forced = or, newest snapshot, reason counts add, associativity, CopyMerge and every queue operation never write to an "
+                   "existing object; queue invariants, refinement to a per-connection mailbox spec, no_loss, isolation, one push in flight, "
+                   "FIFO, redelivery after MarkDone; debounce_no_loss, single flight, wake-up, committed count, no deadlock; semaphore "
+                   "balance, MarkDone exactly once per hand-out, no orphaned processing entry, every flight has a releasing exit. "
+                   "Models tied to /repo on every run by line-by-line differential runs against the real functions."),
+    "level_note": ("Trusted: Lean kernel + {propext, Classical.choice, Quot.sound}; the hand-written models (tied by differential testing: "
+                   "~4000 merge, ~1500 queue cases exactly incl. object identities; debounce and doSendPushes run on real timers/goroutines "
+                   "and are compared only on schedule-independent facts - union of keys, forced, committed count, single flight, state at "
+                   "rest - ~120 cases each quick); hook file pilot/pkg/xds/zz_verif_c02.go. Assumed, not proved: atomicity of the queue "
+                   "methods under their mutex (stress-tested), scheduler/timer fairness for liveness, callers not writing to a request "
+                   "after hand-off, Push != nil on every enqueued request. Not modelled: the path ConfigUpdate -> pushChannel and "
+                   "Push -> AdsPushAll -> StartPush (which connections are enumerated), pushConnection itself, gRPC."),
+    "technique": "Lean 4 theorems (invariants, refinement, induction over histories) over exact models + differential correspondence with the real Go functions",
     "design_ref": "DESIGN.md section 5 C02",
 }
